@@ -24,7 +24,7 @@ XSI = 'http://www.w3.org/2001/XMLSchema-instance'
 PAYLOADS = ('internal', 'nested', 'parameter', 'external_file', 'external_http', 'unparsed', 'ext_subset',
             'unused', 'attr_only', 'benign_empty_subset', 'benign_element_decl', 'benign_none')
 BENIGN = ('benign_empty_subset', 'benign_element_decl', 'benign_none')
-PROLOGS = ('plain', 'bom8', 'utf16', 'latin1', 'pad9k', 'pad17k', 'pad66k', 'subsetpad66k')
+PROLOGS = ('plain', 'bom8', 'utf16', 'latin1', 'pad9k', 'pad17k', 'pad66k', 'subsetpad66k', 'standalone', 'standalone')
 ROLES = ('instance', 'instance_lazy', 'validate', 'main_schema', 'included', 'imported', 'redefined', 'hinted')
 
 # channel catalogue: (name, kind, seekable, url attribute, base_url class)
@@ -83,7 +83,8 @@ def build_doc(payload, prolog, is_schema, urls, tns=None):
     secret_file_url, secret_http_url, dtd_url = urls
     root = 'xs:schema' if is_schema else 'root'
     enc = {'utf16': 'UTF-16', 'latin1': 'ISO-8859-1'}.get(prolog, 'UTF-8')
-    decl = f'<?xml version="1.0" encoding="{enc}"?>\n'
+    sa = ' standalone="yes"' if prolog == 'standalone' else ''
+    decl = f'<?xml version="1.0" encoding="{enc}"{sa}?>\n'
     pad = {'pad9k': 9, 'pad17k': 17, 'pad66k': 66}.get(prolog, 0)
     padding = ('<!--' + 'c' * 1016 + '-->\n') * pad
     dt = doctype(payload, root, secret_file_url, secret_http_url, dtd_url,
